@@ -21,9 +21,34 @@ func randMetrics(r *rng) *afm.Metrics {
 		m.Encoding[i] = ".notdef"
 	}
 	m.FontName = pick(r, []string{"Test-Regular", "X", "ABCDEF+Foo"})
-	m.FullName = pick(r, []string{"Test Regular", "X", "Foo Bold Italic"})
-	m.Version = pick(r, []string{"", "001.002", "1.0 beta"})
-	m.Notice = pick(r, []string{"", "Copyright (c) 2023 Somebody. All rights reserved."})
+	// text fields: words of arbitrary printable characters joined by single blanks (also the characters that mean
+	// something to fmt, to PostScript and to the AFM syntax: % \ ( ) ; # and bytes above 127)
+	word := func() string {
+		if r.chance(1, 2) {
+			return pick(r, []string{"Test", "Regular", "Bold", "100%", "50%", "%d", "%s%v", "%!", "%%", "%", "a%b", "(c)", "\\n", "C:\\Fonts", ";", "#1", "Gr\xfc\xdfe", "\xe9t\xe9", "N", "C", "EndCharMetrics", "Comment", "StartKernPairs", "-1", "1e5"})
+		}
+		b := make([]byte, r.rangeInt(1, 8))
+		for i := range b {
+			b[i] = byte(r.rangeInt(33, 126))
+		}
+		return string(b)
+	}
+	text := func(allowEmpty bool) string {
+		if allowEmpty && r.chance(1, 4) {
+			return ""
+		}
+		if r.chance(1, 3) {
+			return pick(r, []string{"Test Regular", "X", "Foo Bold Italic", "001.002", "1.0 beta", "Copyright (c) 2023 Somebody. All rights reserved."})
+		}
+		var ws []string
+		for k := r.rangeInt(1, 6); k > 0; k-- {
+			ws = append(ws, word())
+		}
+		return strings.Join(ws, " ")
+	}
+	m.FullName = text(false)
+	m.Version = text(true)
+	m.Notice = text(true)
 	m.CapHeight = float64(r.rangeInt(0, 900))
 	m.XHeight = float64(r.rangeInt(0, 700))
 	m.Ascent = float64(r.rangeInt(0, 1000))
@@ -408,6 +433,27 @@ func afmCase(o *suiteOut, line string) {
 		if back.Notice != m.Notice {
 			o.fail("C15", "writing and re-reading returns equal metrics (long Notice)", line, "equal", fmt.Sprint(len(back.Notice)))
 		}
+	case "hugeline":
+		// lines of 2^k - 1, 2^k and 2^k + 1 bytes for the powers of two from 1 MiB to 64 MiB (buffers grow by doubling,
+		// and a limit on the line length would be one of these): one long Notice, written and read back
+		m := randMetrics(r)
+		k := 20 + int(seed%7)
+		for _, d := range []int{-1, 0, 1} {
+			m.Notice = strings.Repeat("y", (1<<k)+d-len("Notice "))
+			d1, err, pan := writeMetrics(m)
+			if err != nil || pan != "" {
+				o.fail("C15", "writing metrics succeeds", line, "nil", fmt.Sprint(err, pan))
+				break
+			}
+			back, err, _ := readMetrics(d1)
+			if err != nil {
+				o.fail("C15", fmt.Sprintf("the written metrics can be re-read (a line of 2^%d%+d bytes)", k, d), line, "nil", err.Error())
+				break
+			}
+			if back.Notice != m.Notice {
+				o.fail("C15", "writing and re-reading returns equal metrics (long Notice)", line, "equal", fmt.Sprint(len(back.Notice)))
+			}
+		}
 	case "closure":
 		m := randMetrics(r)
 		// leave the integral domain: fractional and large numbers, odd texts
@@ -465,6 +511,11 @@ func suiteAFM(o *suiteOut, r *rng, tier string, n int) {
 	afmCase(o, "afm 5 afterfail")
 	afmCase(o, "afm 2 barecr")
 	afmCase(o, "afm 3 barecr")
+	for k := 0; k < 7; k++ {
+		if k < 6 || tier == "thorough" {
+			afmCase(o, fmt.Sprintf("afm %d hugeline", 7000+k)) // seeds chosen so that seed mod 7 runs through 0..6
+		}
+	}
 	for i := 0; i < 40; i++ {
 		afmCase(o, fmt.Sprintf("afm %d mixedeol", 600+i))
 	}
